@@ -35,7 +35,12 @@ def run(cx, chk):
                     chk.violation("C04.R5", "%s|%s" % (f["q"], st.src.split("#")[0]),
                                   "the eviction callback runs while node %s is unlinked, unindexed and not owned (%s): if the callback panics the node and its key/value are never released"
                                   % (fmt_val(n), "; ".join(st.hist[-3:])), g["span"]["file"], e.get("ln"), g["q"], ["root " + f["q"]], cfg)
-    ntrun.report_findings(cx, chk, ("C04.",), cb_extra)
+    chk.rule("C04.R6", "a value duplicated with ptr::read / assume_init_read is not dropped at its source afterwards (unless the source was overwritten with ptr::write first): the copy and the original would both be released")
+
+    def dup_extra(cfg, F, f, p, w):
+        cb_extra(cfg, F, f, p, w)
+        ntrun.dup_source_drops(chk, cfg, F, f, p, "C04.R6")
+    ntrun.report_findings(cx, chk, ("C04.",), dup_extra)
     for cfg, F in cx.cfgs():
         n_into = 0
         for b in F.doc["bodies"]:
